@@ -116,6 +116,16 @@ def build(seed, n):
                     shutil.rmtree(d, ignore_errors=True)
 
             convs.append(("gen:{}".format(i), gen_conv))
+        spec_b = gen_function(rng, with_body=True, kind="static")
+
+        def fn_to_class_with_call(spec=spec_b):
+            # a function with a body re-homed into a class __call__ (parameter references become self.<name>)
+            from doctrans import emit, parse
+            from doctrans.source_transformer import to_code
+
+            return to_code(emit.class_(parse.function(ast.parse(spec.src).body[0]), emit_call=True, class_name="C_target"))
+
+        convs.append(("function->class_with_call:{}".format(i), fn_to_class_with_call))
         if i % 2 == 1:
             # hand-written argparse functions whose options use type names beyond the scalar ones (dict, list, Path, ...),
             # and hand-written settings classes that mention the same type names: what either converts to must not
